@@ -15,7 +15,7 @@ import json
 import numpy as np
 import pymbolic.primitives as P
 
-from mc import kernel
+from mc import kernel, prog
 
 ID = "C09"
 LEVEL = "exploration"
@@ -260,6 +260,19 @@ class CheckingStore(dict):
         self.loopvars = loopvars
         self.unset_read = None
 
+    def sibling(self):
+        """another mapping of the same interpreter (e.g. a scratch namespace): same checks, verdicts reported here"""
+        main = self
+
+        class Sib(CheckingStore):
+            def __contains__(s, name):
+                return dict.__contains__(s, name)       # only the last mapping of a chain can tell "unset"
+
+            def __setitem__(s, name, v):
+                main._check(name, v)
+                dict.__setitem__(s, name, v)
+        return Sib(self.table, self.phase_getter, self.loopvars)
+
     def kind_of(self, name):
         from dagrt.utils import is_state_variable
         if is_state_variable(name):
@@ -273,13 +286,16 @@ class CheckingStore(dict):
             self.unset_read = name
         return r
 
-    def __setitem__(self, name, v):
+    def _check(self, name, v):
         if self.bad is None and not name.startswith("<state>") and name not in ("<t>", "<dt>"):
             k = self.kind_of(name)
             if k == "<missing>" or k is None:
                 self.bad = ("no-kind", name, None, v)
             elif not in_gamma(k, v):
                 self.bad = ("value-not-in-kind", name, k, v)
+
+    def __setitem__(self, name, v):
+        self._check(name, v)
         super().__setitem__(name, v)
 
 
@@ -336,8 +352,7 @@ def check_program_1(items, first):
     it = NumpyInterpreter(dag, {"<func>f": f_rhs})
     cur = {"phase": first}
     store = CheckingStore(tbl, lambda: cur["phase"], set())
-    it.context = store
-    it.eval_mapper.context = store
+    prog.install_store(it, store, store.sibling)
     dict.__setitem__(store, "<t>", 0.0)
     dict.__setitem__(store, "<dt>", 0.5)
     dict.__setitem__(store, "<state>y", Tagged([1.0, -2.0, 3.0], "ytype"))
